@@ -169,8 +169,19 @@ EXPORT void vh_alloc_scope(int what, uint64_t n, uint64_t p1, uint64_t p2, int64
 // a library call must leave it as it found it (rounding mode, flush-to-zero, denormals-are-zero)
 #if defined(__x86_64__)
 #include <xmmintrin.h>
-EXPORT uint32_t vh_fpenv_get(void) { return _mm_getcsr() & ~0x3Fu; }   // control bits only: the sticky exception flags are not state
-EXPORT void vh_fpenv_set_control(uint32_t v) { _mm_setcsr((_mm_getcsr() & 0x3Fu) | (v & ~0x3Fu)); }
+static inline uint16_t vh_getcw(void) { uint16_t cw; __asm__ volatile("fnstcw %0" : "=m"(cw)); return cw; }
+static inline void vh_setcw(uint16_t cw) { __asm__ volatile("fldcw %0" : : "m"(cw)); }
+// control bits only (the sticky exception flags are not state): MXCSR in the low half, the x87 control word in the high half
+EXPORT uint32_t vh_fpenv_get(void) { return (_mm_getcsr() & 0xFFC0u) | ((uint32_t)vh_getcw() << 16); }
+EXPORT void vh_fpenv_set_control(uint32_t v) {
+  _mm_setcsr((_mm_getcsr() & 0x3Fu) | (v & 0xFFC0u));
+  if (v >> 16) vh_setcw((uint16_t)(v >> 16));
+}
+// rounding mode of both units, as fesetround does: 0 nearest, 1 down, 2 up, 3 toward zero
+EXPORT void vh_fpenv_set_round(uint32_t r) {
+  _mm_setcsr((_mm_getcsr() & ~0x6000u) | ((r & 3u) << 13));
+  vh_setcw((uint16_t)((vh_getcw() & ~0x0C00u) | ((r & 3u) << 10)));
+}
 // the six sticky exception flags raised, as left behind by whatever the caller computed before (0/0, an inexact sum, an overflow)
 EXPORT void vh_fpenv_raise_flags(void) { _mm_setcsr(_mm_getcsr() | 0x3Fu); }
 EXPORT void vh_fpenv_clear_flags(void) { _mm_setcsr(_mm_getcsr() & ~0x3Fu); }
@@ -179,4 +190,5 @@ EXPORT uint32_t vh_fpenv_get(void) { return 0; }
 EXPORT void vh_fpenv_set_control(uint32_t v) { (void)v; }
 EXPORT void vh_fpenv_raise_flags(void) {}
 EXPORT void vh_fpenv_clear_flags(void) {}
+EXPORT void vh_fpenv_set_round(uint32_t r) { (void)r; }
 #endif
